@@ -1,3 +1,4 @@
 pub mod core;
 pub mod router;
 pub mod pure;
+pub mod net;
